@@ -65,6 +65,21 @@ def run_one(args):
                 ast.parse(open(os.path.join(tmp, e[0]), encoding="utf-8").read())
             except SyntaxError as ex:
                 return {"id": mut["id"], "expect": mut["expect"], "result": "broken-mutant", "why": str(ex)}
+        if os.environ.get("VERIF_AUDIT_RESPELL"):
+            # stress variant: the mutated tree is mechanically respelled (tools/mech_neutral.py modes, comma separated, applied in
+            # the order given) before the check sees it - the verdicts must not change
+            src_ = open(os.path.join(VERIF, "tools", "mech_neutral.py")).read().rsplit("\nmain()", 1)[0]
+            ns_ = {"__name__": "mech_neutral_tool", "__file__": os.path.join(VERIF, "tools", "mech_neutral.py")}
+            exec(compile(src_, "mech_neutral.py", "exec"), ns_)
+            for root_, _d, fs_ in os.walk(os.path.join(tmp, "ak")):
+                for fn_ in fs_:
+                    if fn_.endswith(".py"):
+                        p_ = os.path.join(root_, fn_)
+                        tree_ = ast.parse(open(p_, encoding="utf-8").read())
+                        for m_ in os.environ["VERIF_AUDIT_RESPELL"].split(","):
+                            tree_ = ns_["MODES"][m_]().visit(tree_)
+                            ast.fix_missing_locations(tree_)
+                        open(p_, "w", encoding="utf-8").write(ast.unparse(tree_) + "\n")
         if os.environ.get("VERIF_AUDIT_RENAME") == "1":
             # stress variant of the audit: every local of the mutated tree is renamed before the check sees it - the verdicts
             # must not change (the name normalisation has to find the correspondence on *changed* code too)
